@@ -98,6 +98,49 @@ def isolate(drv, cfg_ops, lang, text, sig):
     return text
 
 
+FAMILY_WORDS = ['qa', 'qb', 'qc', 'qd', 'qe']
+
+
+def user_family_ops(rng):
+    """add_dynamic_type + items at a random subset of the indices 1..6 (gaps allowed), with up/down formulas that divide, multiply
+    or keep the value; plus two custom rules"""
+    ops = [{'op': 'add_type', 'name': 'qfam'}]
+    idx = sorted(rng.sample(range(1, 7), rng.randint(2, 5)))
+    for word, i in zip(FAMILY_WORDS, idx):
+        f = rng.choice(['{value} / 2', '{value} * 2', '{value}', '{value} / 10', '{value} * 1000', '{value} / 0', '{value} - 1'])
+        g = rng.choice(['{value} * 2', '{value} / 2', '{value}', '{value} * 10', '{value} / 1000', '0', '{value} + 1'])
+        ops.append({'op': 'add_type_item', 'name': 'qfam', 'index': i, 'format': '{value} %s' % word.upper(), 'parse': ['{NUMBER:value} {TEXT:type:%s}' % word],
+                    'up': f, 'down': g, 'names': [word]})
+    ops.append({'op': 'add_rule', 'lang': 'en', 'patterns': ['zork {NUMBER:a} {NUMBER:b}', '{NUMBER:a} zork'], 'spec': {'name': 'r1', 'kind': 'encode', 'weights': {'a': 1}}})
+    ops.append({'op': 'add_rule', 'lang': rng.choice(['en', 'tr', 'xx']), 'patterns': ['blip {TEXT:t}'], 'spec': {'name': 'r2', 'kind': rng.choice(['decline', 'const']), 'value': 7}})
+    return ops
+
+
+def family_text(rng):
+    w = lambda: rng.choice(FAMILY_WORDS)
+    n = lambda: rng.choice(['0', '1', '8', '2,5', '1000', '-3', '1e3', '99999999999'])
+    lines = []
+    for _ in range(rng.randint(1, 4)):
+        k = rng.randrange(8)
+        if k == 0:
+            lines.append('%s %s to %s' % (n(), w(), w()))
+        elif k == 1:
+            lines.append('%s %s %s %s %s' % (n(), w(), rng.choice('+-*/'), n(), w()))
+        elif k == 2:
+            lines.append('zq = %s %s to %s' % (n(), w(), w()))
+        elif k == 3:
+            lines.append('zq to %s' % w())
+        elif k == 4:
+            lines.append('%s %s as %s to %s' % (n(), w(), w(), w()))
+        elif k == 5:
+            lines.append('zork %s %s' % (n(), n()))
+        elif k == 6:
+            lines.append('blip %s' % w())
+        else:
+            lines.append('%s %s %s' % (n(), w(), gh.hostile_line(rng, long_tail=False)[:60]))
+    return rng.choice(['\n', '\r\n']).join(lines)
+
+
 FUZZ_LANGS = ['en', 'tr', 'xx', 'en']
 FUZZ_CFGS = [
     {'dec': ',', 'thou': '.', 'digits': 2, 'rm': True, 'round': True, 'tz': 'UTC'},
@@ -234,14 +277,39 @@ def run_shard(ctx):
         ops = list(cops)
         meta = []
         use_session = rng.random() < 0.25
+        reuse_session = use_session and rng.random() < 0.6      # one Session object for the whole batch (texts of varying line counts)
         if use_session:
             ops.append({'op': 'session_new', 's': 1})
-        nbatch = 150
-        for _ in range(nbatch):
-            lang = rng.choice(gh.HOSTILE_LANGS)
-            text, nslots, sent = gh.hostile_text(rng)
+        family = None
+        if rng.random() < 0.2:
+            # a calculator with a user-defined unit family (indices with gaps, arbitrary formulas) and custom rules: part of the
+            # configuration space the API can reach; the texts of such a batch also use the family's words
+            family = user_family_ops(rng)
+            ops = [{'op': 'new_calc', 'c': 0, 'seg': True}] + gh.config_ops(cfg, 0, seg=False) + family
+            cops = list(ops)
             if use_session:
                 ops.append({'op': 'session_new', 's': 1})
+            res.count('batches_with_user_family_and_rules')
+        nbatch = 150
+        run_len, dirty = 0, False
+        for _ in range(nbatch):
+            lang = rng.choice(gh.HOSTILE_LANGS)
+            if family is not None and rng.random() < 0.5:
+                text = family_text(rng)
+                nslots, sent = len(re.split(r'\r\n|\n', text)), {}
+            else:
+                text, nslots, sent = gh.hostile_text(rng)
+            if use_session:
+                # a re-used Session keeps its variables: it is replaced after six texts so that the number of bindings (and with it
+                # the legitimate cost of a line) stays bounded, and sentinel values are only demanded while nothing was bound
+                if not reuse_session or run_len >= 6:
+                    ops.append({'op': 'session_new', 's': 1})
+                    run_len, dirty = 0, False
+                run_len += 1
+                if dirty:
+                    sent = {}
+                if '=' in text:
+                    dirty = True
                 ops.append({'op': 'session_set_language', 's': 1, 'lang': lang})
                 ops.append({'op': 'session_set_text', 's': 1, 'text': text})
                 ops.append({'op': 'execute_session', 's': 1, 'text': text})
